@@ -1,5 +1,7 @@
-/* C03: path_is_relative against the documented meaning (reproc.h :343-345,
- * process.posix.c :39-41), bounded string length. */
+/* C03/C14: path_is_relative against the documented meaning (reproc.h :343-345,
+ * process.posix.c :39-41), bounded string length. The string lives in a heap
+ * object of exactly strlen + 1 bytes, so that a read past the terminating NUL
+ * is out of bounds. */
 #include "process.posix.c"
 #include "static_process.h"
 #include "common.h"
@@ -11,18 +13,28 @@
 void harness(void)
 {
   ghost_init();
-  static char s[VERIF_PATHLEN + 1];
-  for (int i = 0; i < VERIF_PATHLEN; i++) s[i] = (char) nondet_uchar();
-  s[VERIF_PATHLEN] = '\0';
+  size_t len = nondet_ulong();
+  __CPROVER_assume(len <= VERIF_PATHLEN);
+  char *s = (malloc)(len + 1);
+  __CPROVER_assume(s != NULL);
+  for (size_t i = 0; i < VERIF_PATHLEN; i++) {
+    if (i < len) {
+      s[i] = (char) nondet_uchar();
+      __CPROVER_assume(s[i] != '\0');
+    }
+  }
+  s[len] = '\0';
   const char *path = s;
 
   bool spec = false; /* not empty, not absolute, and names a directory component */
-  if (s[0] != '\0' && s[0] != '/') {
-    for (int i = 1; i < VERIF_PATHLEN && s[i] != '\0'; i++) {
-      if (s[i] == '/') spec = true;
+  if (len > 0 && s[0] != '/') {
+    for (size_t i = 1; i < VERIF_PATHLEN; i++) {
+      if (i < len && s[i] == '/') spec = true;
     }
   }
   bool verif_rv = path_is_relative(path);
   V_ASSERT("C03/path_is_relative.non_empty_not_absolute_with_directory_component", verif_rv == spec);
   if (verif_rv) V_CANARY("path.relative_reachable"); else V_CANARY("path.not_relative_reachable");
+  if (len == 0) V_CANARY("path.empty_string_reachable");
+  (free)(s);
 }
